@@ -185,7 +185,7 @@ def obligations(tier, seed):
                 obs.append({"name": "two/%s+%s/%s#%d/a=%d" % (k1, k2, sn, i, aa), "fn": "ob_two",
                             "P": {"schema": sn, "doc": i, "kind": k1, "kind2": k2, "a": aa, "xs": list(range(min(nx, 2)))}, "timeout": T})
     # (schema, doc, kinds): attr steps need a node with attrs, node-mark steps a parent that allows marks on blocks
-    prim = [("list", 1, [0, 2]), ("list", 4, [1]), ("docmarks", 0, [3, 4]), ("mx1", 1, [3, 4])] if tier == "quick" else \
+    prim = [("list", 1, [0, 2]), ("list", 4, [1]), ("docmarks", 0, [3, 4]), ("docmarks", 2, [3, 4]), ("mx1", 1, [3, 4])] if tier == "quick" else \
         [("list", i, [0, 2]) for i in (1, 2, 4, 7, 11)] + [("list", 4, [1]), ("list", 8, [1]), ("strict", 0, [0, 1]), ("table", 0, [0]),
                                                     ("docmarks", 0, [0, 3, 4]), ("docmarks", 1, [3, 4]), ("mx1", 1, [3, 4]), ("mx5", 2, [3, 4])]
     for (sn, i, pks) in prim:
